@@ -101,8 +101,142 @@ h("ki5e_length_gzip", I + "/ki5_trailer.rs", "inflate::verif_kani::ki5_trailer",
   bounds="start mode Length, wrap in {2,6}, any gzip flags word, any 64-bit total, 0..=5 trailer bytes")
 h("ki5e_check_gzip", I + "/ki5_trailer.rs", "inflate::verif_kani::ki5_trailer", ["C08", "C03"],
   kernel="KI5e", expect_s=120, timeout=1200, weight=2,
-  functions=TRAILER_FNS + ["Crc32Fold::fold", "Crc32Fold::finish", "crc32::braid::crc32_braid (generic)"],
-  bounds="start mode Check (gzip), any 32-bit running CRC, 2 symbolic output bytes, 8 symbolic trailer bytes; reference = bitwise CRC-32")
+  functions=TRAILER_FNS + ["Crc32Fold::fold", "Crc32Fold::finish"],
+  bounds="start mode Check (gzip), any 32-bit running CRC, 2 symbolic output bytes, 8 symbolic trailer bytes",
+  assumptions=["crc32::braid::crc32_braid -> byte-wise fold model (braid == CRC-32 is C09's subject)"])
 h("ki5e_terminal_modes", I + "/ki5_trailer.rs", "inflate::verif_kani::ki5_trailer", ["C02", "C16", "C04"],
   kernel="KI5e", expect_s=10, timeout=300, functions=["State::dispatch (modes Done, Bad, Mem, Sync)"],
   bounds="4 symbolic input bytes, any wrap")
+
+# ---------------------------------------------------------------- inflate: KI5a/b headers
+HDR = I + "/ki5_header.rs"
+HP = "inflate::verif_kani::ki5_header"
+MODELCRC = ["crc32::crc32 -> cheap byte-wise fold (rotl5 ^ byte): sound for 'which bytes are folded, in which order'; that the real crc32 equals CRC-32 is C09's harnesses",
+            "inflate_table stubbed by assume(false): unreachable from header modes"]
+NOCRC = ["crc32::crc32 -> nondeterministic value (over-approximation; the checksum value is not the subject here)",
+         "inflate_table stubbed by assume(false): unreachable from header modes"]
+h("ki5b_fixed_part", HDR, HP, ["C20", "C02", "C03", "C08"], kernel="KI5b", expect_s=60, timeout=900,
+  functions=["State::dispatch (modes Flags, Time, Os, ExLen, Extra, Name, Comment, HCrc, Type)"],
+  bounds="start mode Flags, 0..=10 symbolic bytes, wrap in {2,6}, with and without a capture struct, flush = Block, any running header CRC",
+  assumptions=MODELCRC)
+h("ki5b_extra", HDR, HP, ["C20", "C02"], kernel="KI5b", expect_s=60, timeout=900,
+  functions=["State::dispatch (mode Extra ...)"],
+  bounds="XLEN <= 9, any progress through the field, 0..=6 input bytes, extra_max <= 4 in an 8-byte canaried buffer or NULL",
+  assumptions=NOCRC + ["pre-state invariant: remaining <= extra_len"])
+h("ki5b_name", HDR, HP, ["C20", "C02", "C08"], kernel="KI5b", expect_s=40, timeout=900,
+  functions=["State::dispatch (mode Name ...)"],
+  bounds="0..=6 input bytes, name_max <= 4 in an 8-byte canaried buffer or NULL, any progress already <= name_max",
+  assumptions=MODELCRC + ["pre-state invariant: bytes already stored <= name_max (holds when the capture struct is installed before the header is parsed, as zlib.h requires)"])
+h("ki5b_comment", HDR, HP, ["C20", "C02"], kernel="KI5b", expect_s=40, timeout=900,
+  functions=["State::dispatch (mode Comment ...)"],
+  bounds="0..=6 input bytes, comm_max <= 4 in an 8-byte canaried buffer or NULL", assumptions=MODELCRC)
+h("ki5b_hcrc", HDR, HP, ["C08", "C20", "C03", "C02"], kernel="KI5b", expect_s=15, timeout=600,
+  functions=["State::dispatch (mode HCrc, Type)"],
+  bounds="any running header CRC, 0..=3 input bytes, wrap in {2,6}, FHCRC set or clear")
+h("ki5a_head", HDR, HP, ["C03", "C13", "C02"], kernel="KI5a", expect_s=60, timeout=900,
+  functions=["State::dispatch (modes Head, DictId, Dict, Type)"],
+  bounds="0..=6 symbolic bytes, wrap in {1,2,3,5,6,7}, wbits in {0, 8..=15}, flush = Block", assumptions=NOCRC)
+h("ki5a_set_dictionary", HDR, HP, ["C13", "C16", "C02"], kernel="KI5a", expect_s=120, timeout=1200, weight=2,
+  functions=["inflate::set_dictionary", "adler32::adler32", "Window::extend", "inflate::get_dictionary"],
+  bounds="dictionary <= 6 symbolic bytes, W = 4, wrap in {0,1,5}, Dict or non-Dict mode, any demanded id")
+
+# ---------------------------------------------------------------- inflate: KI5c block layer
+BLK = I + "/ki5_blocks.rs"
+BP = "inflate::verif_kani::ki5_blocks"
+STEP_ASSUME = ["inflate_table stubbed by assume(false) (dynamic blocks outside this harness)",
+               "inflate_fast_help behind a checked stub: reaching it fails the harness",
+               "checked stubs (panic if reached) for callees the harness bounds make unreachable: Writer::copy_match, Writer::extend_from_window, <[u16]>::fill",
+               "block-layer / header / trailer harnesses: State::len_and_friends -> contract stub 'suspends at once' (the symbol decoder is KI5d's subject)"]
+h("ki5c_typedo", BLK, BP, ["C03", "C02", "C04"], kernel="KI5c", expect_s=40, timeout=900,
+  functions=["State::dispatch (modes TypeDo, Stored, Len_, Len, Table, Check, Length, Done)", "State::len_and_friends (entry)"],
+  bounds="0..=7 primed bits + 0..=1 input byte (<= 9 bits in all), any flush mode, last-block flag set or clear",
+  assumptions=STEP_ASSUME)
+h("ki5c_stored", BLK, BP, ["C03", "C02", "C15", "C04", "C01"], kernel="KI5c", expect_s=60, timeout=900,
+  functions=["State::dispatch (modes Stored, CopyBlock, Type, TypeDo, Check, Length, Done)", "Writer::extend", "BitReader::next_byte_boundary"],
+  bounds="0..=7 stale bits, 0..=8 input bytes (LEN, NLEN, <= 4 data), output capacity 0..=4 in a canaried array, flush in {NoFlush, Block}, final block",
+  assumptions=STEP_ASSUME)
+h("ki5c_copyblock_resume", BLK, BP, ["C15", "C02", "C04"], kernel="KI5c", expect_s=40, timeout=900,
+  functions=["State::dispatch (mode CopyBlock)"],
+  bounds="any remaining length <= 65535, 0..=6 input bytes, output capacity 0..=6 in a canaried array", assumptions=STEP_ASSUME)
+h("ki5c_table", BLK, BP, ["C03", "C02"], kernel="KI5c", expect_s=30, timeout=900,
+  functions=["State::dispatch (modes Table, LenLens)"], bounds="<= 16 bits available from 0..=7 primed bits + 0..=2 bytes",
+  assumptions=STEP_ASSUME)
+h("ki5c_lenlens_order", BLK, BP, ["C03", "C02", "C04"], kernel="KI5c", expect_s=30, timeout=900,
+  functions=["State::dispatch (mode LenLens)"], bounds="any HCLEN, any progress with >= 6 lengths outstanding, 2 input bytes",
+  assumptions=STEP_ASSUME)
+# ---------------------------------------------------------------- inflate: KI5d symbols
+SYM = I + "/ki5_symbols.rs"
+SP = "inflate::verif_kani::ki5_symbols"
+h("ki5d_len_step", SYM, SP, ["C03", "C02", "C04"], kernel="KI5d", expect_s=60, timeout=900,
+  functions=["State::dispatch (mode Len)", "State::len_and_friends (modes Len, Lit, LenExt, Dist)", "inffixed_tbl::LENFIX"],
+  bounds="fixed tables, 0..=9 primed bits of any value, no input, output capacity <= 3 with 0..=cap already written",
+  assumptions=STEP_ASSUME + ["oracle: RFC 1951 3.2.5/3.2.6 reference decoder in the harness"])
+h("ki5d_dist_step_dispatch", SYM, SP, ["C03", "C02", "C04"], kernel="KI5d", expect_s=120, timeout=1200, weight=2,
+  functions=["State::dispatch (modes LenExt, Dist, DistExt, Match)", "inffixed_tbl::DISTFIX"],
+  bounds="start in LenExt/Dist/DistExt with any carried registers, 0..=23 primed bits, no input, writer full (step ends in Match before any copy)",
+  assumptions=STEP_ASSUME)
+h("ki5d_dist_step_friends", SYM, SP, ["C03", "C02", "C04"], kernel="KI5d", expect_s=120, timeout=1200, weight=2,
+  functions=["State::len_and_friends (modes LenExt, Dist, DistExt, Match)"],
+  bounds="same as ki5d_dist_step_dispatch, through the second copy of the code", assumptions=STEP_ASSUME)
+h("ki5d_match_step_dispatch", SYM, SP, ["C02", "C03", "C04"], kernel="KI5d", expect_s=400, timeout=2400, weight=3, mem_gb=20,
+  functions=["State::dispatch (mode Match)", "Writer::copy_match", "Writer::extend_from_window", "Window::extend (to reach the ring pre-state)"],
+  bounds="length 1..=8, offset 1..=32768, 0..=4 bytes already written, capacity <= 8 in a canaried 16-byte array, window 8 with any reachable (have, next)",
+  assumptions=STEP_ASSUME)
+h("ki5d_match_step_friends", SYM, SP, ["C02", "C03", "C04"], kernel="KI5d", expect_s=400, timeout=2400, weight=3, mem_gb=20,
+  functions=["State::len_and_friends (mode Match)"], bounds="same as ki5d_match_step_dispatch, second copy of the code",
+  assumptions=STEP_ASSUME)
+h("ki5d_match_step_dispatch_wide", SYM, SP, ["C02", "C03"], kernel="KI5d", tier="thorough", expect_s=2000, timeout=5400, weight=4, mem_gb=24,
+  functions=["State::dispatch (mode Match)"], bounds="length 1..=258, capacity <= 12", assumptions=STEP_ASSUME)
+h("ki5d_fixed_tables_are_rfc", SYM, SP, ["C03", "C01", "C05"], kernel="KD2/KI5d", expect_s=5, timeout=300,
+  functions=["inffixed_tbl::LENFIX", "inffixed_tbl::DISTFIX"], bounds="all 512 + 32 table indices (exhaustive, decided symbolically)")
+
+# ---------------------------------------------------------------- deflate: KD6 stored path
+h("kd6_stored_one_call", D + "/kd6_stored.rs", "deflate::verif_kani::kd6_stored", ["C01", "C05", "C06", "C07", "C11", "C15"],
+  kernel="KD6", expect_s=400, timeout=2400, weight=3, mem_gb=20,
+  functions=["algorithm::run", "algorithm::stored::deflate_stored", "read_buf_direct_copy", "read_buf_window", "zng_tr_stored_block",
+             "flush_pending", "Pending::{extend,rewind,advance}", "BitWriter::{emit_tree,emit_align}", "deflate::bound (level-0 branch)"],
+  bounds="typed level-0 state, w_size 16 (window 32 B), pending 64 B; one call with 0..=6 symbolic input bytes, output space 1..=24 in a canaried "
+         "array, flush in {NoFlush, SyncFlush, FullFlush, Finish}; oracle = stored-block reference parser (RFC 1951 3.2.4) in the harness",
+  assumptions=["reduced w_size/pending: deflate_stored takes both from the state and never uses MIN_LOOKAHEAD",
+               "raw wrapper (wrap = 0): checksums are the subject of other harnesses"])
+# ---------------------------------------------------------------- deflate: KD7 status machine
+RUNSTUB = ["algorithm::run -> contract stub (consumes all input, emits nothing, returns NeedMore/BlockDone/FinishDone by flush)",
+           "<[u16]>::fill -> ptr::write_bytes(0) model (head.fill(0) is a 65536-iteration loop under CBMC)"]
+h("kd7_zlib_wrapper", D + "/kd7_machine.rs", "deflate::verif_kani::kd7_machine", ["C05", "C06", "C11", "C13", "C15"],
+  kernel="KD7", expect_s=40, timeout=900,
+  functions=["deflate::deflate", "State::header", "State::level_flags", "flush_pending", "zng_tr_stored_block", "BitWriter::align", "rank_flush"],
+  bounds="zlib wrapper, w_bits 9, all levels 0..=9 x 5 strategies x dictionary/no dictionary x any DICTID x flush in {Finish, Sync, Full, Partial, Block}; 16 bytes of output; second identical call",
+  assumptions=RUNSTUB)
+h("kd7_zlib_starved_finish", D + "/kd7_machine.rs", "deflate::verif_kani::kd7_machine", ["C06", "C11", "C05", "C15"],
+  kernel="KD7", expect_s=120, timeout=1200, weight=2,
+  functions=["deflate::deflate", "flush_pending"],
+  bounds="zlib wrapper with dictionary id, Finish, up to 11 calls with 1..=3 bytes of output space each (symbolic)", assumptions=RUNSTUB)
+
+# ---------------------------------------------------------------- deflate: KD10 entry points
+E = D + "/kd10_entry.rs"
+EP = "deflate::verif_kani::kd10_entry"
+h("kd10_reset_equals_fresh", E, EP, ["C14", "C10", "C01", "C06"], kernel="KD10", expect_s=200, timeout=1800, weight=3, mem_gb=20,
+  functions=["deflate::reset", "reset_keep", "lm_init", "lm_set_level", "State::zng_tr_init", "State::init_block", "Pending::reset_keep", "SymBuf::clear"],
+  bounds="typed state w_bits 9, every scalar field of State and of the stream arbitrary, levels 0..=9, wrap 0/1/2 (negated or not), any status; "
+         "compared field by field with reset() of the state init() constructs",
+  assumptions=["<[u16]>::fill / <[u8]>::fill -> ptr::write_bytes(0) model", "buffer contents are not compared (covered by the head[i] == 0 check for a symbolic i)"])
+h("ka2_deflate_copy_alloc_failure", E, EP, ["C18", "C14"], kernel="KA2", expect_s=10, timeout=600,
+  functions=["deflate::copy (failure path)", "Allocator::allocate_slice_raw", "DeflateAllocOffsets::new"],
+  bounds="typed source stream, allocator that fails its only request; counts zalloc/zfree calls")
+h("kd10_params_tune", E, EP, ["C06", "C16"], kernel="KD10", expect_s=60, timeout=900,
+  functions=["deflate::params", "deflate::tune", "lm_set_level", "DeflateStream::pending"],
+  bounds="every i32 level, 5 strategies, any previous level 0..=9, any last_flush/matches; tune with four arbitrary usize values",
+  assumptions=["deflate::deflate -> contract stub (Block flush with room consumes all input)", "slide_hash -> no-op stub (its effect on head/prev is KD9's subject)",
+               "<[u16]>::fill -> write_bytes model"])
+h("kd10_set_header", E, EP, ["C16", "C20", "C06"], kernel="KD10", expect_s=5, timeout=300,
+  functions=["deflate::set_header"], bounds="wrap in -2..=2, header present or None")
+
+# ---------------------------------------------------------------- allocator shim
+A = "zlib-rs/src/allocate/verif_kani.rs"
+h("ka1_alloc_shim", A, "allocate::verif_kani", ["C18"], kernel="KA1", expect_s=10, timeout=600,
+  functions=["Allocator::allocate_layout", "Allocator::deallocate"],
+  bounds="user zalloc returning base+k for every misalignment k < 64 out of a canaried arena (or NULL), size 1..=64, align 2^0..2^6",
+  assumptions=["zalloc contract: returns NULL or a block of at least items*size bytes"])
+h("ka1_alloc_overflow_and_null", A, "allocate::verif_kani", ["C18", "C06"], kernel="KA1", expect_s=5, timeout=300,
+  functions=["Allocator::allocate_slice_raw", "Allocator::allocate_layout", "Allocator::deallocate"],
+  bounds="every length above u32::MAX - 9 (request no longer fits unsigned int); NULL pointer deallocation")
